@@ -795,6 +795,10 @@ def unpack_dataclass(spec: ValueSpec) -> Optional[Expression]:
             spec.builder.ensure_object_imported(spec.origin_type, cls_alias)
             return f"{cls_alias}.{method_name}({method_args})"
         else:
+            if not hasattr(spec.attrs, method_name):
+                # a class that refers to itself: its method is being built
+                # right now and is looked up when the call is made
+                return f"{spec.cls_attrs_name}.{method_name}({method_args})"
             method_name_alias = f"{cls_alias}_{method_name}"
             spec.builder.ensure_object_imported(
                 getattr(spec.attrs, method_name),
